@@ -313,6 +313,8 @@ def trace_props(op, why):
         return {"C13", "C18"} if op.get("unchecked") else {"C13"}
     if n in ("eq_clone", "s_eq_clone"):
         return {"C14", "C15"}
+    if n == "s_algebra":
+        return {"C08"}
     if n == "s_iter":
         return {"C09"}
     if n == "s_into_iter":
@@ -595,7 +597,7 @@ def jobs_for(pid, tier):
         "C18": both("unchecked", ["unchecked"], consts={"MaxKs": 3}, bigconsts={"Vers": [0], "MaxKs": 4}) + tmap + tbig,
         "C19": both("fmt", ["fmt", "cursor"]) + core + setcore + pairs("alg", ["algebra"], "set", qcaps[:2] if q else tcaps[:6])
                + ([J("fmt-n3", ["fmt"], consts={"Caps": [3], "Vers": [0], "Vals": [0]}), J("setfmt-n3", ["fmt"], mode="set", consts={"Caps": [3], "Vers": [0]})] if q else []),
-        "C08": pairs("alg", ["algebra"], "set", qcaps if q else tcaps),
+        "C08": pairs("alg", ["algebra"], "set", qcaps if q else tcaps) + tset + tbigset,
         "C14": tbigset + pairs("eqset", ["eq"], "set", qcaps if q else tcaps) + pairs("eqmap", ["eq"], "map", qcaps[:2] if q else tcaps[:9]),
         "C15": shaped(both("clone", ["clone"])) + both("setclone", ["clone"], mode="set"),
         "C20": both("serde", ["serde"]) + both("setserde", ["serde"], mode="set"),
